@@ -31,6 +31,10 @@ PROPS = {
             {"pkg": "qa", "world": "qa",
              "quick": {"runs": 96, "max_wall_s": 120, "minimise_s": 20, "extra": {"expand": "crash"}, "knobs": {"depth2": 1}},
              "thorough": {"runs": 3200, "max_wall_s": 1500, "minimise_s": 60, "extra": {"expand": "crash"}, "knobs": {"depth2": -1}}},
+            # second part: many scenarios x drawn schedules (preemption bound 0-3) with one crash at a drawn point
+            {"pkg": "qa", "world": "qa", "seed_salt": 0x5ca1ab1e,
+             "quick": {"runs": 8000, "max_wall_s": 120, "minimise_s": 20, "knobs": {"rand_crash": 1}},
+             "thorough": {"runs": 600000, "max_wall_s": 1500, "minimise_s": 60, "knobs": {"rand_crash": 1}}},
         ],
     },
     "C10": {
@@ -75,6 +79,18 @@ PROPS = {
              "thorough": {"runs": 2000000, "max_wall_s": 1500, "minimise_s": 60}},
         ],
     },
+    "C11": {
+        "level": "exploration",
+        "rule": "LM part: one run = a limits configuration built by the real Init (concurrency 1-3 and/or rate per scope all/ip/source/destination) and 1-64 delivery tasks taking message and destination permits, holding them 0-6 s (beyond the 5 s wait time-out) and releasing; 1 in 24 runs additionally floods a keyed scope with 20013 distinct keys (beyond the bucket-table capacity); schedule: preemption bound 0-3 or random walk over the yield points of limits.go and limiters/*.go with tape-controlled select; invariant at every take: holders per scope key <= N; after quiescence exactly N permits are acquirable; non-trivial = preemption taken, a waiter waited or timed out, or the flood ran",
+        "real": ["internal/limits (Group.Init from config nodes, TakeMsg/TakeDest/Release*)", "internal/limits/limiters (BucketSet, Semaphore, Rate, MultiLimit) - yield-instrumented", "testing/synctest fake clock (5 s time-outs, rate refill)"],
+        "stub": ["deliveries are tasks calling the limits API directly (endpoint and remote target paths are covered by the EP/RM parts when built)"],
+        "assumptions": COMMON_ASSUME,
+        "parts": [
+            {"pkg": "lm", "world": "lm",
+             "quick": {"runs": 6000, "max_wall_s": 150, "minimise_s": 20},
+             "thorough": {"runs": 600000, "max_wall_s": 1500, "minimise_s": 60}},
+        ],
+    },
 }
 
 # ---------------------------------------------------------------- manifest metadata
@@ -104,6 +120,10 @@ META = {
             "design_ref": "DESIGN.md section 6 (C19)",
             "level_text": "Controlled-interleaving exploration of concurrent get/return/clean-up/shutdown with the real pool; every connection object monitors owner, close count and hand-out time.",
             "level_note": "Connections are stubs; code between yield points is atomic; idle-lifetime checks allow one second of slack for the pool's unix-second arithmetic."},
+    "C11": {"technique": "deterministic simulation: concurrent deliveries against the real limits.Group/limiters under controlled interleavings and fake-clock time-outs; holder-count invariant and post-quiescence capacity probe",
+            "design_ref": "DESIGN.md section 6 (C11)",
+            "level_text": "Controlled-interleaving exploration with the limits group built by its own Init; invariant checked at every acquisition, capacity probed after quiescence, key populations beyond the bucket-table capacity included.",
+            "level_note": "Deliveries are tasks calling the limits API; endings at each SMTP stage are represented by which permits a task takes and when it releases."},
 }
 
 NOT_APPLICABLE = [
